@@ -47,8 +47,21 @@ def glyph_indexed_tables(repo):
                     break
         else:
             uses = set()
+            # recalc() reads the outlines to recompute derived header fields; that is not per-glyph *storage*.  Helpers that
+            # are called only from recalc (an extracted block) are part of it.
+            excluded = {id(f.node) for f in c.mod.funcs.values() if getattr(f.node, "name", None) == "recalc"}
+            grew = True
+            while grew:
+                grew = False
+                for q, f in c.mod.funcs.items():
+                    if id(f.node) in excluded or not hasattr(f.node, "name"):
+                        continue
+                    sites = [(g, call) for g in c.mod.funcs.values() for call in calls_in(g.node, nested=False) if last_attr(call) == f.node.name or call_name(call) == f.node.name]
+                    if sites and all(id(g.node) in excluded for g, _ in sites):
+                        excluded.add(id(f.node))
+                        grew = True
             for q, f in c.mod.funcs.items():
-                if f.node.name in ("recalc",):
+                if id(f.node) in excluded:
                     continue
                 if f.cls is None or f.cls.name != c.name and not f.cls.name.startswith("table_"):
                     # helper classes of the module (sub-records) count too
@@ -735,6 +748,21 @@ def c17_scale(ctx, repo):
             if isinstance(n, ast.If) and norm(n.test).startswith("flags & otTables.VarComponentFlags."):
                 scaled = any(isinstance(x, ast.Call) and norm(x.func) == "visitor.scale" for s in n.body for x in ast.walk(s))
                 walk.append((norm(n.test).rsplit(".", 1)[1], scaled))
+    if varc and not walk:
+        # table-driven form: `for flag, isDistance in TABLE:` over a literal module-level table of (flag, bool) pairs, the
+        # index advancing only where `flags & flag` holds and the scale call sitting under `isDistance`
+        from ..cfg import implied_conditions as _ic
+
+        gvc = CFG(varc[0].node)
+        for lp in [n for n in walk_no_nested(varc[0].node) if isinstance(n, ast.For) and isinstance(n.iter, ast.Name) and isinstance(n.target, ast.Tuple) and len(n.target.elts) == 2 and all(isinstance(e, ast.Name) for e in n.target.elts)]:
+            table = sm.assigns.get(lp.iter.id)
+            if not isinstance(table, (ast.Tuple, ast.List)) or not all(isinstance(e, ast.Tuple) and len(e.elts) == 2 and isinstance(e.elts[0], ast.Attribute) and isinstance(e.elts[1], ast.Constant) for e in table.elts):
+                continue
+            fl, dist = lp.target.elts[0].id, lp.target.elts[1].id
+            adv = [st for st in ast.walk(lp) if isinstance(st, ast.AugAssign) and isinstance(st.op, ast.Add) and try_fold(st.value) == 1]
+            sc = [st for st in ast.walk(lp) if isinstance(st, ast.Assign) and any(isinstance(x, ast.Call) and norm(x.func) == "visitor.scale" for x in ast.walk(st.value))]
+            if len(adv) == 1 and len(sc) == 1 and (f"flags & {fl}", True) in _ic(gvc, adv[0]) and {(f"flags & {fl}", True), (dist, True)} <= _ic(gvc, sc[0]):
+                walk = [(e.elts[0].attr, bool(e.elts[1].value)) for e in table.elts]
     ok = [w for w, _ in walk] == have and {w for w, s in walk if s} == unit_scaled and len(have) == 9
     ctx.ob("SCALE-shape", sm.rel + ":<module>", f"VARC delta walk {[w for w, _ in walk]} follows VAR_TRANSFORM_MAPPING order; scaled = {sorted(w for w, s in walk if s)}", ok, "" if ok else f"walk order differs from VAR_TRANSFORM_MAPPING order {have}, or the scaled set is not the translate/tCenter components {sorted(unit_scaled)}")
 
@@ -988,6 +1016,13 @@ def skip_audit(ctx, repo, rels=("ttLib/scaleUpem.py",), rule="SKIP"):
                 loop = parent(st)
                 while loop is not None and not isinstance(loop, (ast.For, ast.While)):
                     loop = parent(loop)
+                # a loop over a literal module-level table (field descriptors, flag lists) walks the program's own data, not
+                # the font's records: skipping an entry there is dispatch, not a skipped record
+                it = loop.iter if isinstance(loop, ast.For) else None
+                while isinstance(it, ast.Call) and (isinstance(it.func, ast.Name) and it.func.id in ("enumerate", "list", "tuple") and it.args or isinstance(it.func, ast.Attribute) and it.func.attr in ("items", "keys", "values")):
+                    it = it.args[0] if isinstance(it.func, ast.Name) else it.func.value
+                if isinstance(it, ast.Name) and isinstance(mod.assigns.get(it.id), (ast.Tuple, ast.List, ast.Dict)) and not any(isinstance(x, ast.Name) and isinstance(x.ctx, ast.Store) and x.id == it.id for x in walk_no_nested(f.node)):
+                    continue
                 inner = []
                 for t, pol in guard_conditions(st):
                     p = t
